@@ -79,6 +79,8 @@ class Node:
     none_label: bool = False  # ... plus None as the returned label
     label_slots: int = 1
     want_max: int = 0  # recurrent dest: asks for next_iteration `want` times, want in [0, want_max]
+    rec_pattern: bool = False  # ... instead of `want`: a symbolic yes/no per invocation (so that a finished inner subgraph can
+    #                            be asked to iterate again in a later iteration of an outer one)
     rec_none: bool = False  # ... and may pass None as the data of an iteration (symbolic per iteration)
     attempts: Optional[int] = None
     delay: Optional[int] = None
@@ -273,6 +275,15 @@ class Behaviour:
             return bool(self.fixed[nm])
         return self.sym.bool(nm)
 
+    def asks_again(self, nd: Node, k: int, rec_count: int) -> Any:
+        """Does the k-th invocation of the destination ask for another iteration?"""
+        if nd.rec_pattern:
+            nm = self._n("%s.rec%d" % (nd.name, min(k, 5)))
+            if nm in self.fixed:
+                return bool(self.fixed[nm])
+            return self.sym.bool(nm)
+        return rec_count < self.want(nd)
+
     def want(self, nd: Node) -> Any:
         if nd.want_max <= 0:
             return 0
@@ -357,7 +368,7 @@ class RunCtx:
             return self.seq
         self.seq += 1
         self.log.append((self.seq, kind, node, payload))
-        if self.closed and kind in ("start", "ev", "save"):
+        if self.closed and kind in ("start", "ev", "ev_begin", "save"):
             self.late.append((kind, node))
         return self.seq
 
@@ -416,9 +427,9 @@ class RunCtx:
             self._rec("end", inv.node, ("label", inv.k))
             return lab
         v = node_value(self.spec, nd, beh.base(nd), inv.kwargs, self.bad)
-        if nd.recurrent and nd.want_max > 0:
+        if nd.recurrent and (nd.want_max > 0 or nd.rec_pattern):
             rc = self.rec_count.get(inv.node, 0)
-            if rc < beh.want(nd):
+            if beh.asks_again(nd, inv.k, rc):
                 self.rec_count[inv.node] = rc + 1
                 data = None if beh.rec_data_is_none(nd, rc) else v + beh.rec_offset(nd)
                 inv.outcome = ("rec", data)
@@ -545,10 +556,13 @@ def make_event_manager() -> type:
                 rc.reused.append("event_manager")
             rc.ev_calls += 1
             n = rc.ev_calls
-            rc.events.append((rc._rec("ev", name, kw.get("node_id")), name, kw, ctx))
+            rc._rec("ev_begin", name, kw.get("node_id"))  # the callback has been entered
             d = rc.ev_durs.get(name, rc.collab_dur) if rc.ev_durs else rc.collab_dur
             if d:
                 await asyncio.sleep(d)
+            # the event counts as observed when a (possibly slow) manager has got through it: a manager registered after a
+            # slow one sees it exactly then
+            rc.events.append((rc._rec("ev", name, kw.get("node_id")), name, kw, ctx))
             if n == rc.ev_fail_at:
                 raise CollabError("event", name, n)
 
